@@ -14,6 +14,9 @@ use crate::mon_c01::expected;
 use crate::mon_c03::{gen_erasures, gen_transform, gen_transform_input};
 use crate::util::{hash_bytes, jobj, jstr, run_cases, Agg, CaseOut, Rng, RunCfg};
 
+/// set once any DefaultEngine::new() was seen to consult the masked detection
+static NEW_REACHES_HOOK: std::sync::atomic::AtomicBool = std::sync::atomic::AtomicBool::new(false);
+
 const AVX2: usize = 0;
 const SSSE3: usize = 1;
 const PRIMS: [&str; 4] = ["fft", "ifft", "mul", "eval_poly"];
@@ -23,6 +26,14 @@ pub fn run(cfg: &RunCfg, agg: &Mutex<Agg>) {
     if !hooks::armed() {
         agg.lock().unwrap().inconclusive.push("C14 trace monitor needs the verif-hooks build".into());
         return;
+    }
+    {
+        // first DefaultEngine of the process, under the unrestricted mask
+        let q0 = hooks::detect_queries();
+        let _e = DefaultEngine::new();
+        if hooks::detect_queries() > q0 {
+            NEW_REACHES_HOOK.store(true, std::sync::atomic::Ordering::Relaxed);
+        }
     }
     run_cases(agg, cfg, "primitive-trace", crate::count(cfg, 4000, 80_000), |cs, out| {
         primitive_case(&mut Rng::new(cs), out);
@@ -148,8 +159,15 @@ fn primitive_case(rng: &mut Rng, out: &mut CaseOut) {
         let q0 = hooks::detect_queries();
         let engine = DefaultEngine::new();
         let q1 = hooks::detect_queries();
-        if q1 == q0 && (real(AVX2) || real(SSSE3)) {
-            out.inconclusive.push("feature-mask hook not reached by DefaultEngine::new (detection no longer goes through the shadowed macro?)".into());
+        if q1 > q0 {
+            NEW_REACHES_HOOK.store(true, std::sync::atomic::Ordering::Relaxed);
+        } else if (real(AVX2) || real(SSSE3)) && !NEW_REACHES_HOOK.load(std::sync::atomic::Ordering::Relaxed) {
+            // Detection in DefaultEngine::new never went through the masked
+            // macro in this process: the mask cannot take effect, so nothing can
+            // be concluded. (If it did at least once, a call without a query
+            // means the answer was remembered - then the object is judged like
+            // any other: the reported set is what the mask says now.)
+            out.inconclusive.push("feature-mask hook never reached by DefaultEngine::new (detection no longer goes through the shadowed macro?)".into());
             return;
         }
         let c0 = hooks::isa_counters();
